@@ -329,7 +329,9 @@ fn main() {
         drain_events()
     };
     let mut faults = 0u64;
-    let lite = cfg!(miri) || args.extra.iter().any(|x| x == "--lite");
+    // --text (always under Miri): hand-written event lines, no allocator events; --lite: value + triple only
+    let text = cfg!(miri) || args.extra.iter().any(|x| x == "--text");
+    let lite = text || args.extra.iter().any(|x| x == "--lite");
     let mut emit = |log: &mut Log, case: &Value, src: &str, faults: &mut u64| {
         let _ = drain_events();
         let mut ev = run_history_opt(case, &mut window, lite);
@@ -350,6 +352,32 @@ fn main() {
         log.ev(ev);
     };
     if let Some(path) = &args.cases {
+        if text {
+            // text fast path (Miri): one line in, one line out, flushed so that an aborted run shows where it stopped
+            use std::io::{BufRead, Write};
+            let f = std::io::BufReader::new(std::fs::File::open(path).expect("open case file"));
+            let mut w = std::io::BufWriter::new(std::fs::File::create(&args.out).expect("create trace file"));
+            let mut n = 0;
+            for line in f.lines() {
+                let line = line.unwrap();
+                if line.trim().is_empty() {
+                    continue;
+                }
+                let case: Value = serde_json::from_str(&line).expect("case line");
+                n += 1;
+                let (line_out, fault) = run_history_text(&line, &case, ",\"prop\":\"C17\",\"src\":\"miri\"");
+                if fault {
+                    eprintln!("c17: harness fault in case {}", line);
+                    std::process::exit(3);
+                }
+                w.write_all(line_out.as_bytes()).unwrap();
+                w.write_all(b"\n").unwrap();
+                w.flush().unwrap();
+            }
+            w.flush().unwrap();
+            eprintln!("c17: {} histories (text mode)", n);
+            return;
+        }
         for c in read_cases(path) {
             emit(&mut log, &c, "gen", &mut faults);
         }
